@@ -72,7 +72,9 @@ LookupRules(e) ==
         [] e.api = "LocateRegionByID" -> Check(e.loc.id = e.id, "LocateRegionByID returned another region", <<e.id, e.loc>>)
         [] e.api \in {"LocateKeyRange", "BatchLocateKeyRanges", "LoadRegionsInKeyRange"} ->
              /\ Check(Covered(e.locs, e.ranges), "a range lookup leaves part of a requested range uncovered", <<e.api, e.ranges, e.locs>>)
-             /\ Check(Ordered(e.locs), "a range lookup returned locations out of order", <<e.api, e.ranges, e.locs>>)
+             \* (an answer PD gave from an older state may describe a wide region that starts before the locations already
+             \* collected: the range is still covered, the order of starts is only demanded of fresh answers)
+             /\ ~e.stale => Check(Ordered(e.locs), "a range lookup returned locations out of order", <<e.api, e.ranges, e.locs>>)
         [] e.api = "ListRegionIDsInKeyRange" -> Check(Len(e.ids) >= 1, "no region listed for a non-empty range", e.ranges)
         [] e.api = "GroupKeysByRegion" -> Check(GroupOK(e), "key grouping: a key is in no group, in two, or in a region that does not contain it", <<e.keys, e.groups, e.first>>)
         [] OTHER -> TRUE
